@@ -2,6 +2,7 @@ package rules
 
 import (
 	"fmt"
+	"go/token"
 	"sort"
 	"strings"
 
@@ -20,6 +21,7 @@ func runC10(r *engine.Run) {
 	r.Rule("AGREE-limits", "see C12: proof verification decodes with the same CBOR limits as the export importer (an honest proof of a full-depth path has one element more than the key has nibbles and must not be rejected for its size)")
 	r.Rule("AGREE-domain", "the hash pre-images of the node kinds are domain separated: each kind's CalcHash starts its pre-image with a constant tag that differs between kinds; without it a value node whose bytes are a branch's child hashes has the branch's hash, so a proof may present a branch as a value")
 	r.Rule("AGREE-bind", "navigated-by is a subset of committed-to: what verifyProof reads from a node's children to decide where to descend (their Weight()) must be part of what that node kind's CalcHash appends to its pre-image per child; a value node's pre-image contains its weight and value")
+	r.Rule("ORDER-hashfresh", "in the Serialize methods of the hashed node kinds every read of a cached hash (the receiver's hash field, a child's Hash()) is reached only on paths where the receiver's dirty flag tested false or CalcHash() was called on the receiver: proofs and exported paths (which serialise nodes directly, possibly after an update and before the next Root()/Commit) never carry a stale hash")
 	r.NotDec = append(r.NotDec, "absence of other forgeries (a statement over all byte strings)", "that honest proofs verify for every content (value-level)")
 	f := r.Fn("ORDER-recompute", pkgWMPT, "", "verifyProof")
 	if f == nil {
@@ -30,6 +32,7 @@ func runC10(r *engine.Run) {
 	agreeBind(r, f)
 	agreeLimits(r, "AGREE-limits")
 	agreeDomain(r)
+	orderHashFresh(r, "ORDER-hashfresh")
 }
 
 func orderRecompute(r *engine.Run, f *ssa.Function) {
@@ -367,4 +370,136 @@ func agreeDomain(r *engine.Run) {
 		tags["routingNode"] != tags["shortNode"] && tags["routingNode"] != tags["valueNode"] && tags["shortNode"] != tags["valueNode"]
 	r.Check(distinct, rule, "wmpt.CalcHash|kind tag", "core/util/wmpt/node.go:0", fmt.Sprintf("distinct constant tags %v", tags),
 		fmt.Sprintf("the pre-images of branch, shared-prefix and value nodes do not start with distinct constant tags (%v): a value node with weight w and value = the 16 child hashes of a branch of weight w has that branch's hash, so a one-element proof presenting the root branch as a value verifies to the trusted root", tags))
+}
+
+// orderHashFresh: what a node serialises is computed from current hashes. The
+// Serialize method of each hashed node kind reads cached hashes (its own hash
+// field, its children's Hash()); every such read is reached only on paths where
+// the receiver's dirty flag tested false or CalcHash() was called on the
+// receiver (which re-hashes the dirty part of the subtree). GetBlockProof and
+// GetPath serialise nodes of a trie that may have been updated since the last
+// Root()/Commit: a stale sibling hash in a proof verifies to a hash that is not
+// the trie's root.
+func orderHashFresh(r *engine.Run, rule string) {
+	n := 0
+	for _, kind := range []string{"routingNode", "shortNode", "valueNode"} {
+		f := r.Fn(rule, pkgWMPT, kind, "Serialize")
+		if f == nil {
+			continue
+		}
+		recv := f.Params[0]
+		fresh := map[*ssa.BasicBlock]bool{}
+		var dirtyKeys []string
+		engine.Instrs(f, func(in ssa.Instruction) {
+			if c, ok := in.(*ssa.Call); ok {
+				if rv, is := engine.IsMethodCall(c, "CalcHash"); is && rv == ssa.Value(recv) {
+					fresh[c.Block()] = true
+				}
+			}
+			if ld, ok := in.(*ssa.UnOp); ok && ld.Op == token.MUL {
+				if fa, ok := ld.X.(*ssa.FieldAddr); ok && fa.X == ssa.Value(recv) && engine.FieldOf(fa).Name() == "dirty" {
+					dirtyKeys = append(dirtyKeys, engine.ValKey(ld))
+				}
+			}
+		})
+		o := ord{}
+		engine.Instrs(f, func(in ssa.Instruction) {
+			what := ""
+			switch x := in.(type) {
+			case *ssa.UnOp:
+				if fa, ok := x.X.(*ssa.FieldAddr); ok && x.Op == token.MUL && fa.X == ssa.Value(recv) && engine.FieldOf(fa).Name() == "hash" {
+					what = "own hash field"
+				}
+			case *ssa.Call:
+				if _, is := engine.IsMethodCall(x, "Hash"); is {
+					what = "Hash() of a child"
+				}
+			}
+			if what == "" {
+				return
+			}
+			n++
+			good := false
+			detail := ""
+			if fresh[in.Block()] {
+				// the CalcHash call must precede the read inside the block
+				for _, i2 := range in.Block().Instrs {
+					if i2 == in {
+						break
+					}
+					if c, ok := i2.(*ssa.Call); ok {
+						if rv, is := engine.IsMethodCall(c, "CalcHash"); is && rv == ssa.Value(recv) {
+							good = true
+						}
+					}
+				}
+			}
+			if !good {
+				paths, ok := engine.PathFactsAvoid(f, in.Block(), fresh, 4096)
+				if !ok {
+					r.Undec(rule, o.next(fn(f)+"|"+what), r.P.Pos(in.Pos()), "too many paths")
+					return
+				}
+				good = true
+				for _, p := range paths {
+					clean := false
+					for _, k := range dirtyKeys {
+						if v, had := p[k]; had && !v {
+							clean = true
+						}
+					}
+					if !clean {
+						good = false
+						detail = "a path reaches the read with the receiver possibly dirty and no CalcHash()"
+					}
+				}
+			}
+			if !good {
+				// accepted alternative: every caller re-hashes before serialising
+				if bad := staleSerializeCallers(r); len(bad) == 0 {
+					good = true
+				} else {
+					detail += "; and Serialize is called without a preceding CalcHash() on the same node at " + strings.Join(bad, ", ")
+				}
+			}
+			r.Check(good, rule, o.next(fn(f)+"|"+what), r.P.Pos(in.Pos()), "read only after the receiver tested not dirty or was re-hashed (in Serialize itself or at every call site)",
+				"the serialised form reads a cached hash that may be stale ("+detail+"): a proof or an exported path built after an update and before the next Root()/Commit carries an old sibling hash and verifies to a hash that is not the trie's root")
+		})
+	}
+	if n < 4 {
+		r.Anchor(rule, fmt.Errorf("unresolved anchor: %d cached-hash reads found in the Serialize methods", n))
+	}
+}
+
+// staleSerializeCallers: call sites of Serialize in the weighted trie that are
+// not dominated by CalcHash() on the same node value.
+func staleSerializeCallers(r *engine.Run) []string {
+	var bad []string
+	for _, g := range funcsOfPkg(r, pkgWMPT) {
+		engine.Instrs(g, func(in ssa.Instruction) {
+			c, ok := in.(*ssa.Call)
+			if !ok {
+				return
+			}
+			rv, is := engine.IsMethodCall(c, "Serialize")
+			if !is {
+				return
+			}
+			fresh := false
+			engine.Instrs(g, func(i2 ssa.Instruction) {
+				c2, ok := i2.(*ssa.Call)
+				if !ok {
+					return
+				}
+				if rv2, is := engine.IsMethodCall(c2, "CalcHash"); is && (rv2 == rv || engine.ValKey(rv2) == engine.ValKey(rv)) && engine.InstrDominates(c2, c) {
+					fresh = true
+				}
+			})
+			if !fresh {
+				bad = append(bad, r.P.Pos(c.Pos()))
+			}
+		})
+	}
+	sort.Strings(bad)
+	return bad
 }
